@@ -77,7 +77,7 @@ fn handle(ws: &[&str]) -> String {
                 v.push(op);
             }
             match gen_um::um_run(exp, kind, &v) {
-                Some(Ok(w)) => format!("ok {}", hex(&w)),
+                Some(Ok((w, rt))) => format!("ok {} rt={rt}", hex(&w)),
                 Some(Err(e)) => format!("err {e}"),
                 None => "bad-op".into(),
             }
